@@ -24,7 +24,7 @@ Theorem C09_close_once : forall c r a disc,
       (o_closes res = 1%nat /\ o_handover res = false) \/ (o_closes res = 0%nat /\ o_handover res = true))
   /\ (o_iter res = true -> a_has_close a = false -> o_closes res = 0%nat)
   /\ (o_handover res = true -> a_kind a = KFile true).
-Proof. exact (close_once py_cap py_lower). Qed.
+Proof. exact (fun c r a disc => close_once py_cap py_lower c r disc a). Qed.
 Print Assumptions C09_close_once.
 
 (* The outcome of HTTPChannel.service() by what was raised (outcome_spec, in
